@@ -18,12 +18,19 @@ EXTENDS Integers, Sequences, FiniteSets, TLC, Json
 
 CONSTANTS Atomic,
           Readers,      \* how many lock-free reads (PackForCast / GetReceived: no pool lock) may interleave
+          Lookups,      \* how many lock-free existence lookups (IsExisted: pending container, then the executed
+                        \* store; no pool lock) may interleave, each in two steps: the store read, the return
+          NegCache,     \* BOOLEAN, FALSE = as coded; TRUE = a variant in which a lookup that found nothing
+                        \* remembers "not executed" when it returns, and bookkeeping forgets such entries
+                        \* when it writes (negative control)
           CachedView    \* BOOLEAN, FALSE = as coded: a reader looks at the container itself; TRUE = a
                         \* variant in which readers build a pending view once and mutators drop it when
                         \* they TAKE the lock, i.e. before their mutation (negative control)
 
-VARIABLES inPending, inExecuted, op2, pc, seen, sched, init, view, nread
-vars == <<inPending, inExecuted, op2, pc, seen, sched, init, view, nread>>
+VARIABLES inPending, inExecuted, op2, pc, seen, sched, init, view, nread, lk, nlook, negc
+vars == <<inPending, inExecuted, op2, pc, seen, sched, init, view, nread, lk, nlook, negc>>
+(* lk: "idle" / "found" / "missing": a lookup in flight and what its store read answered;
+   negc: a remembered "not executed" (NegCache variant) *)
 (* view: "none" or what a cached pending view holds: "with" / "without" the transaction *)
 
 Ops2 == {"Add", "Mark", "UnMark"}
@@ -38,6 +45,7 @@ Init == /\ init \in Inits
         /\ seen = [th \in {1, 2} |-> FALSE]
         /\ sched = <<>>
         /\ view = "none" /\ nread = 0
+        /\ lk = "idle" /\ nlook = 0 /\ negc = FALSE
 
 Exists == inPending \/ inExecuted
 
@@ -47,8 +55,9 @@ Micro(th) ==
   /\ pc[th] < Steps(o)
   /\ pc' = [pc EXCEPT ![th] = k]
   /\ sched' = Append(sched, th)
-  /\ UNCHANGED <<op2, init, nread>>
+  /\ UNCHANGED <<op2, init, nread, lk, nlook>>
   /\ view' = IF k = 1 THEN "none" ELSE view
+  /\ negc' = IF (o = "Mark" /\ k = 1) THEN FALSE ELSE negc      \* the executed write forgets the negative entry
   /\ CASE o = "Add" /\ k = 1 -> seen' = [seen EXCEPT ![th] = Exists] /\ UNCHANGED <<inPending, inExecuted>>
        [] o = "Add" /\ k = 2 -> inPending' = (inPending \/ ~seen[th]) /\ UNCHANGED <<inExecuted, seen>>
        [] o = "Mark" /\ k = 1 -> inExecuted' = TRUE /\ UNCHANGED <<inPending, seen>>
@@ -63,8 +72,9 @@ Whole(th) ==
   /\ pc[th] = 0
   /\ pc' = [pc EXCEPT ![th] = Steps(o)]
   /\ sched' = sched \o [i \in 1..Steps(o) |-> th]
-  /\ UNCHANGED <<op2, init, seen, nread>>
+  /\ UNCHANGED <<op2, init, seen, nread, lk, nlook>>
   /\ view' = "none"
+  /\ negc' = IF o = "Mark" THEN FALSE ELSE negc
   /\ CASE o = "Add" -> inPending' = (inPending \/ ~Exists) /\ UNCHANGED inExecuted
        [] o = "Mark" -> inExecuted' = TRUE /\ inPending' = FALSE
        [] o = "UnMark" -> inExecuted' = FALSE /\ inPending' = TRUE
@@ -76,12 +86,28 @@ Read ==
   /\ nread' = nread + 1
   /\ sched' = Append(sched, 3)
   /\ view' = IF CachedView /\ view = "none" THEN (IF inPending THEN "with" ELSE "without") ELSE view
-  /\ UNCHANGED <<inPending, inExecuted, op2, pc, seen, init>>
+  /\ UNCHANGED <<inPending, inExecuted, op2, pc, seen, init, lk, nlook, negc>>
 
-Next == (\E th \in {1, 2} : IF Atomic THEN Whole(th) ELSE Micro(th)) \/ Read
+(* a lock-free existence lookup (thread 4), two steps *)
+LookRead ==
+  /\ nlook < Lookups /\ ~Atomic /\ lk = "idle"
+  /\ nlook' = nlook + 1
+  /\ sched' = Append(sched, 4)
+  /\ lk' = IF inPending \/ (inExecuted /\ ~negc) THEN "found" ELSE "missing"
+  /\ UNCHANGED <<inPending, inExecuted, op2, pc, seen, init, view, nread, negc>>
+LookReturn ==
+  /\ lk # "idle"
+  /\ sched' = Append(sched, 4)
+  /\ lk' = "idle"
+  /\ negc' = IF NegCache /\ lk = "missing" THEN TRUE ELSE negc
+  /\ UNCHANGED <<inPending, inExecuted, op2, pc, seen, init, view, nread, nlook>>
+
+Next == (\E th \in {1, 2} : IF Atomic THEN Whole(th) ELSE Micro(th)) \/ Read \/ LookRead \/ LookReturn
 Spec == Init /\ [][Next]_vars
 
-Done == \A th \in {1, 2} : pc[th] = Steps(OpOf(th))
+Done == (\A th \in {1, 2} : pc[th] = Steps(OpOf(th))) /\ lk = "idle"
+(* a lookup after all calls returned knows every pending or executed transaction *)
+InvLookupKnows == Done => ((inPending \/ (inExecuted /\ ~negc)) = (inPending \/ inExecuted))
 (* what a pack after all calls returned is built from *)
 PackSees == IF CachedView /\ view # "none" THEN view = "with" ELSE inPending
 InvPackSeesPool == Done => (PackSees = inPending)
